@@ -57,6 +57,18 @@ pub struct Plain {
     last: u64,
     #[aggregate(strategy = Histogram<u64, SortAndMerge>)]
     ident: u64,
+    /// a field that already is a distribution when it is merged: the value `weight % 3`, recorded
+    /// `1 + id % 3` times (equal values recur across inputs, with multiplicities)
+    #[aggregate(strategy = Histogram<u64, SortAndMerge>)]
+    multi: Histogram<u64, SortAndMerge>,
+}
+
+fn mk_plain(i: &Input) -> Plain {
+    let mut multi: Histogram<u64, SortAndMerge> = Histogram::default();
+    for _ in 0..(1 + i.id % 3) {
+        multi.add_value(i.weight % 3);
+    }
+    Plain { weight: i.weight, last: i.last, ident: i.id, multi }
 }
 
 /// an aggregate embedded in a parent unit-of-work entry (closed together with it)
@@ -116,7 +128,7 @@ pub enum AK {
     Merge { tag: u32, id: u64 },
     FlushBegin { tag: u32 },
     FlushEnd { tag: u32 },
-    Emit { sink: u32, keys: Vec<(String, String)>, weight: Option<u64>, last: Option<u64>, ids: Vec<(u64, u64)>, raw_id: Option<u64>, tag: Option<String> },
+    Emit { sink: u32, keys: Vec<(String, String)>, weight: Option<u64>, last: Option<u64>, ids: Vec<(u64, u64)>, raw_id: Option<u64>, tag: Option<String>, multi: Vec<(u64, u64)> },
     LoggedDrop { tag: u32 },
     FlushReq { fid: u64 },
     FlushDone { fid: u64 },
@@ -268,7 +280,8 @@ fn emit_from(no: u32, t: &TestEntry, raw: bool) -> AK {
     let ids = t.metrics.get("ident").map(|m| obs_pairs(&m.distribution)).unwrap_or_default();
     let raw_id = if raw { ids.first().map(|p| p.0) } else { None };
     let tag = t.values.get("tag").cloned();
-    AK::Emit { sink: no, keys, weight, last, ids, raw_id, tag }
+    let multi = t.metrics.get("multi").map(|m| obs_pairs(&m.distribution)).unwrap_or_default();
+    AK::Emit { sink: no, keys, weight, last, ids, raw_id, tag, multi }
 }
 
 impl AnyEntrySink for CaptureSink {
@@ -380,7 +393,7 @@ fn a_send(r: &ARun, id: u64, unwind: bool) {
         Target::MutexPlain(m) => {
             let h = m.lock().unwrap().clone();
             if let Some(h) = h {
-                let g = Plain { weight: i.weight, last: i.last, ident: i.id }.close_and_merge(h);
+                let g = mk_plain(i).close_and_merge(h);
                 detsim::yield_point();
                 drop_guard(g, unwind);
             }
@@ -388,7 +401,7 @@ fn a_send(r: &ARun, id: u64, unwind: bool) {
         Target::Embedded(m) => {
             if let Some(p) = m.lock().unwrap().as_mut() {
                 r.log.log(AK::Merge { tag: 1, id });
-                let e = Plain { weight: i.weight, last: i.last, ident: i.id };
+                let e = mk_plain(i);
                 if id % 2 == 0 {
                     p.calls.insert(e);
                 } else {
@@ -472,7 +485,11 @@ fn tee_sink(log: &ALog) -> TeeSink<KeyedAggregator<Call, CaptureSink>, TeeSink<K
 fn agg_main(plan: &Value, slot: Arc<Mutex<Option<AggRun>>>, log: ALog) {
     *GLOBAL_LOG.lock().unwrap() = Some(log.clone());
     let kind = js(plan, "kind", "keyed").to_string();
-    let interval = Duration::from_nanos(ju(plan, "flush_interval_ns", 1_000_000_000).max(1));
+    // u64::MAX stands for Duration::MAX ("timer off")
+    let interval = match ju(plan, "flush_interval_ns", 1_000_000_000) {
+        u64::MAX => Duration::MAX,
+        ns => Duration::from_nanos(ns.max(1)),
+    };
     let before: BTreeSet<usize> = detsim::live_threads().into_iter().map(|t| t.0).collect();
     let target = match kind.as_str() {
         "tee" => Target::Tee(SimMutex::new(Logged::new(tee_sink(&log), 1, log.clone()))),
@@ -543,7 +560,8 @@ fn agg_main(plan: &Value, slot: Arc<Mutex<Option<AggRun>>>, log: ALog) {
     if matches!(kind.as_str(), "worker" | "worker_tee") {
         detsim::stop_faults();
         log.log(AK::Phase("faults_stopped"));
-        let cycle = interval.as_nanos() as u64 + 2_000_000 + 1_000_000 * (r.inputs.len() as u64 + 4);
+        // (with the timer effectively off the worker reacts to messages only: a short cycle will do)
+        let cycle = (interval.as_nanos().min(2_000_000_000_000) as u64) % 2_000_000_000_000 + 2_000_000 + 1_000_000 * (r.inputs.len() as u64 + 4);
         let settle = |w: usize| {
             detsim::sleep_ns(cycle);
             let mut guard = 0;
@@ -601,6 +619,7 @@ struct Emitted {
     ids: Vec<(u64, u64)>,
     raw_id: Option<u64>,
     tag: Option<String>,
+    multi: Vec<(u64, u64)>,
 }
 
 pub fn check_c10(plan: &Value, run: &AggRun) -> Option<Violation> {
@@ -617,7 +636,7 @@ pub fn check_c10(plan: &Value, run: &AggRun) -> Option<Violation> {
     let mut logged_drop = None;
     for e in h {
         match &e.k {
-            AK::Emit { sink, keys, weight, last, ids, raw_id, tag } => emitted.push(Emitted { seq: e.seq, sink: *sink, keys: keys.clone(), weight: *weight, last: *last, ids: ids.clone(), raw_id: *raw_id, tag: tag.clone() }),
+            AK::Emit { sink, keys, weight, last, ids, raw_id, tag, multi } => emitted.push(Emitted { seq: e.seq, sink: *sink, keys: keys.clone(), weight: *weight, last: *last, ids: ids.clone(), raw_id: *raw_id, tag: tag.clone(), multi: multi.clone() }),
             AK::SendBegin { id } => {
                 send_inv.insert(*id, e.seq);
             }
@@ -691,6 +710,19 @@ pub fn check_c10(plan: &Value, run: &AggRun) -> Option<Violation> {
                     }
                     if *keying != "none" && em.tag != Some(format!("t{lv}")) {
                         return Some(Violation::new("keep_last_mismatch", format!("aggregate {:?} (sink {sink}) reports tag={:?} (a field merged by clone), the input merged last carried \"t{lv}\"", em.keys, em.tag)));
+                    }
+                }
+                if *keying == "none" {
+                    // the field that was a distribution already: value weight % 3, 1 + id % 3 times per input
+                    let mut want: BTreeMap<u64, u64> = BTreeMap::new();
+                    for (id, _) in &em.ids {
+                        if let Some(inp) = inputs.get(id) {
+                            *want.entry(inp.weight % 3).or_insert(0) += 1 + id % 3;
+                        }
+                    }
+                    let want: Vec<(u64, u64)> = want.into_iter().collect();
+                    if em.multi != want {
+                        return Some(Violation::new("distribution_field_miscounted", format!("aggregate (sink {sink}): the distribution-valued field reports {:?}, the inputs it contains recorded {:?} (value, occurrences)", em.multi, want)));
                     }
                 }
                 let mut sorted = em.ids.clone();
@@ -824,7 +856,7 @@ pub fn gen_c10(rng: &mut Rng, _tier: Tier) -> Value {
     let threaded = matches!(kind, "worker" | "worker_tee" | "mutex" | "embedded");
     let nkeys = 1 + rng.below(5);
     let nthreads = if threaded { 1 + rng.below(3) } else { 0 };
-    let interval = *rng.pick(&[200_000u64, 5_000_000, 100_000_000, 3_600_000_000_000]);
+    let interval = *rng.pick(&[200_000u64, 5_000_000, 100_000_000, 100_000_000, 3_600_000_000_000, u64::MAX]);
     let mut next_id = 1u64;
     let mut gen_ops = |rng: &mut Rng, n: u64, allow_flush: bool| -> Vec<Value> {
         let mut ops = vec![];
